@@ -3,6 +3,7 @@
 # CURRENT /repo HEAD in a scratch worktree (tests green with it; demo passes without it and fails
 # with it), run the given checks against it, replay each reported violation on the mutant and
 # on the clean tree.  Prints a summary; removes the worktree.
+V=$(cd "$(dirname "$0")/.." && pwd)
 d=$(readlink -f "$1"); shift
 name=$(basename "$d")
 wt=/tmp/seed_$name
@@ -18,18 +19,18 @@ fi
 echo "tests: $(cd $wt && /venv/bin/python -B -m pytest -q -p no:cacheprovider 2>&1 | tail -1)"
 (cd $wt && /venv/bin/python -B _mutant/demo.py >/tmp/seed_$name.mut.log 2>&1); echo "mutant_demo_exit=$?"; tail -2 /tmp/seed_$name.mut.log
 for id in "$@"; do
-  out=$(cd /verif && VERIF_REPO=$wt ./check $id 2>&1); rc=$?
+  out=$(cd $V && VERIF_REPO=$wt ./check $id 2>&1); rc=$?
   echo "check $id rc=$rc :: $(echo "$out" | tail -1)"
   echo "$out" | grep VIOLATION | head -6
   for r in $(echo "$out" | grep -o 'replay=[^ ]*' | sed 's/replay=//' | head -2); do
-     m=$(cd /verif && VERIF_REPO=$wt ./check $id --replay $r 2>&1 | tail -1)
-     c=$(cd /verif && ./check $id --replay $r 2>&1 | tail -1)
+     m=$(cd $V && VERIF_REPO=$wt ./check $id --replay $r 2>&1 | tail -1)
+     c=$(cd $V && ./check $id --replay $r 2>&1 | tail -1)
      echo "  replay $r on mutant: $m"; echo "  replay $r on clean : $c"
      python3 -c "
-import json,sys; v=json.load(open('/verif/$r')); print('   ', v.get('kind'), (v.get('violation') or {}).get('signature'), '|', str((v.get('violation') or {}).get('what') or v.get('broken'))[:300])"
+import json,sys; v=json.load(open('$V/$r')); print('   ', v.get('kind'), (v.get('violation') or {}).get('signature'), '|', str((v.get('violation') or {}).get('what') or v.get('broken'))[:300])"
   done
 done
 git -C /repo worktree remove --force $wt; rm -f /tmp/seed_$name.*
 # regenerate lean/PyIpmi/Gen (and the evidence) from /repo again: a scratch-tree run rewrites Gen
-for id in "$@"; do (cd /verif && ./check $id >/dev/null 2>&1); done
+for id in "$@"; do (cd $V && ./check $id >/dev/null 2>&1); done
 
